@@ -43,6 +43,8 @@ class Env:
     def __init__(self):
         self.vals = {}  # name -> sympy term | ('op', name)
         self.ops = {}  # operator variable name -> op string
+        self.shapes = {}  # name -> {"op": op, "left": sym, "right": sym} for names refined to an infix shape
+        self.helper = {}  # (helper name, arg names) -> dict(name index -> sympy term) of the tuple it returned
         self.n = 0
 
     def fresh(self, hint):
@@ -53,8 +55,22 @@ class Env:
         e = Env()
         e.vals = dict(self.vals)
         e.ops = dict(self.ops)
+        e.shapes = dict(self.shapes)
+        e.helper = dict(self.helper)
         e.n = self.n
         return e
+
+    def substitute(self, subs):
+        """apply a {symbol: term} substitution to every bound value"""
+        if not subs:
+            return
+        for n, v in list(self.vals.items()):
+            if n != "__numbers__":
+                self.vals[n] = sp.sympify(v).subs(subs)
+        for n, sh in list(self.shapes.items()):
+            self.shapes[n] = dict(sh, left=sp.sympify(sh["left"]).subs(subs), right=sp.sympify(sh["right"]).subs(subs))
+        for k_, tup in list(self.helper.items()):
+            self.helper[k_] = [sp.sympify(x).subs(subs) for x in tup]
 
 
 def pat_alternatives(p):
@@ -311,6 +327,36 @@ def block_value(b, env):
     for st in stmts[:-1]:
         if st["k"] == "local":
             p = st["pat"]
+            init = strip(st["init"]) if st.get("init") else None
+            if p["k"] != "ident" and init is not None and init.get("k") == "path" and init["p"] in env.vals and p.get("k") in ("tstruct", "ref"):
+                # let Expression::Infix(..) = name.as_ref() else { unreachable }
+                env = refine_infix(env, init["p"], p)
+                continue
+            if p["k"] == "tuple" and init is not None and init.get("k") == "if":
+                names = [x["name"] for x in p["ps"] if x.get("k") == "ident"]
+                if len(names) != len(p["ps"]):
+                    raise Undecided("tuple let pattern")
+                chosen = None
+                for cond, tail_e in if_chain(init):
+                    if cond is None or sp.simplify(sp.sympify(env.vals[cond[0]]) - sp.sympify(env.vals[cond[1]])) == 0:
+                        chosen = tail_e
+                        break
+                vals_ = [env.vals[n] for n in _tuple_names(chosen)]
+                for n, v in zip(names, vals_):
+                    env.vals[n] = v
+                continue
+            if p["k"] == "tstruct" and last(p["path"]) == "Some" and init is not None and init.get("k") == "call":
+                hname = last(src(init["f"]))
+                args = tuple(strip(a)["p"] for a in init["args"] if strip(a).get("k") == "path")
+                tup = env.helper.get((hname, args))
+                inner = p["ps"][0] if p["ps"] else None
+                if tup is None or inner is None or inner.get("k") != "tuple" or len(inner["ps"]) != len(tup):
+                    raise Undecided("let Some(..) = helper")
+                for x, v in zip(inner["ps"], tup):
+                    if x.get("k") != "ident":
+                        raise Undecided("let Some pattern")
+                    env.vals[x["name"]] = v
+                continue
             if p["k"] != "ident":
                 raise Undecided("let pattern")
             name = p["name"]
@@ -331,6 +377,169 @@ def block_value(b, env):
 
 def eval_expr_in(e, env):
     return eval_expr(e, env)
+
+
+HELPERS = {}  # name -> qsyn fn (set by the property module): local boolean / Option-returning guard helpers
+
+
+def refine_infix(env, name, pat):
+    """`name` is bound to an atomic symbol; refine it to the infix shape described by `pat`
+    (Expression::Infix(InfixExpression { left: l, operator: <path>, right: r })) -> new env"""
+    p = pat
+    while p.get("k") == "ref":
+        p = p["p"]
+    if not (p.get("k") == "tstruct" and last(p["path"]) == "Infix" and p["ps"] and p["ps"][0].get("k") == "struct"):
+        raise Undecided("refinement pattern " + src(pat))
+    flds = {f["n"]: f["p"] for f in p["ps"][0]["fields"]}
+    opp = flds.get("operator")
+    if opp is None or opp.get("k") != "path":
+        raise Undecided("refinement operator pattern")
+    op = last(opp["p"])
+    e = env.copy()
+    if name in e.shapes:
+        sh = e.shapes[name]
+        if sh["op"] != op:
+            raise Vacuous("shape mismatch")
+        lt, rt = sh["left"], sh["right"]
+    else:
+        old = e.vals.get(name)
+        if not isinstance(old, sp.Symbol):
+            raise Undecided("refining a non-atomic value " + name)
+        lt, rt = e.fresh(name + "_l"), e.fresh(name + "_r")
+        e.substitute({old: apply_op(op, lt, rt)})
+        e.vals[name] = apply_op(op, lt, rt)
+        e.shapes[name] = {"op": op, "left": lt, "right": rt}
+    for side, t in (("left", lt), ("right", rt)):
+        fp = flds.get(side)
+        if fp is None or fp.get("k") == "wild":
+            continue
+        if fp.get("k") == "ident" and not fp.get("sub"):
+            e.vals[fp["name"]] = t
+        else:
+            raise Undecided("nested refinement pattern")
+    return e
+
+
+def _eq_pairs(cond):
+    """`a == b || c == d ...` -> [(a, b), ..] of path names"""
+    c = strip(cond)
+    if c.get("k") == "bin" and c["op"] == "||":
+        return _eq_pairs(c["l"]) + _eq_pairs(c["r"])
+    if c.get("k") == "bin" and c["op"] == "==" and strip(c["l"]).get("k") == "path" and strip(c["r"]).get("k") == "path":
+        return [(strip(c["l"])["p"], strip(c["r"])["p"])]
+    raise Undecided("helper condition " + src(cond))
+
+
+def _tuple_names(e):
+    e = strip(e)
+    if e.get("k") == "call" and last(src(e["f"])) == "Some" and e["args"]:
+        e = strip(e["args"][0])
+    if e.get("k") == "tuple":
+        out = []
+        for x in e["es"]:
+            x = strip(x)
+            if x.get("k") != "path":
+                raise Undecided("tuple element " + src(x))
+            out.append(x["p"])
+        return out
+    raise Undecided("tuple value " + src(e))
+
+
+def if_chain(e):
+    """if a == b { T1 } else if c == d { T2 } else { Tn } -> [((a, b) | None, tail-expr)]"""
+    out = []
+    cur = strip(e)
+    while cur.get("k") == "if":
+        pairs = _eq_pairs(cur["c"])
+        if len(pairs) != 1:
+            raise Undecided("if-chain condition")
+        t = cur["t"]
+        tail = t["stmts"][-1]["e"] if t.get("k") == "block" and t["stmts"] and t["stmts"][-1]["k"] == "expr" else t
+        out.append((pairs[0], tail))
+        f = cur.get("f")
+        if f is None:
+            raise Undecided("if without else")
+        f = strip(f)
+        if f.get("k") == "block" and len(f["stmts"]) == 1 and f["stmts"][0]["k"] == "expr":
+            f = strip(f["stmts"][0]["e"])
+        cur = f
+    out.append((None, cur))
+    return out
+
+
+def inline_helper(call, env):
+    """guard `h(a, b)` / `h(a, b).is_some()` with h a local helper of the form
+         match (p.as_ref(), q.as_ref()) { (PAT1, PAT2) => BODY, _ => false | None }
+       -> list of (subs, env) alternatives, one per way BODY can be true / Some"""
+    c = strip(call)
+    if c.get("k") == "mcall" and c["m"] == "is_some" and not c["args"]:
+        c = strip(c["recv"])
+    if c.get("k") != "call":
+        raise Undecided("guard " + src(call))
+    hname = last(src(c["f"]))
+    h = HELPERS.get(hname)
+    if h is None:
+        raise Undecided("guard " + src(call))
+    args = []
+    for a in c["args"]:
+        a = strip(a)
+        if a.get("k") != "path" or a["p"] not in env.vals:
+            raise Undecided("helper argument " + src(a))
+        args.append(a["p"])
+    params = [p_["name"] for p_ in h["params"] if p_.get("name") and p_["name"] != "self"]
+    if len(params) != len(args):
+        raise Undecided("helper arity")
+    tail = h["body"]["stmts"][-1]
+    m = strip(tail["e"]) if tail["k"] == "expr" else None
+    if not m or m.get("k") != "match":
+        raise Undecided("helper body")
+    scr = strip(m["e"])
+    if scr.get("k") != "tuple":
+        raise Undecided("helper scrutinee")
+    scr_names = []
+    for x in scr["es"]:
+        x = strip(x)
+        if x.get("k") != "path" or x["p"] not in params:
+            raise Undecided("helper scrutinee element")
+        scr_names.append(args[params.index(x["p"])])
+    arm = m["arms"][0]
+    pat = arm["pat"]
+    if pat.get("k") != "tuple" or len(pat["ps"]) != len(scr_names):
+        raise Undecided("helper arm pattern")
+    e = env.copy()
+    # helper-local names must not clash with the caller's: they are bound under a prefix and aliased afterwards
+    saved = dict(e.vals)
+    for name, p_ in zip(scr_names, pat["ps"]):
+        e = refine_infix(e, name, p_)
+    body = arm["body"]
+    body = strip(body["stmts"][-1]["e"]) if body.get("k") == "block" and body["stmts"] and body["stmts"][-1]["k"] == "expr" else strip(body)
+    alts = []
+    if body.get("k") == "if":
+        for cond, tail_e in if_chain(body):
+            if cond is None:
+                te = strip(tail_e)
+                if te.get("k") == "path" and last(te["p"]) == "None":
+                    continue
+                raise Undecided("helper else branch")
+            e2 = e.copy()
+            a_, b_ = e2.vals[cond[0]], e2.vals[cond[1]]
+            subs = {b_: a_}
+            e2.substitute(subs)
+            e2.helper[(hname, tuple(args))] = [e2.vals[n] for n in _tuple_names(tail_e)]
+            alts.append((subs, e2))
+    else:
+        for a_n, b_n in _eq_pairs(body):
+            e2 = e.copy()
+            a_, b_ = e2.vals[a_n], e2.vals[b_n]
+            subs = {b_: a_}
+            e2.substitute(subs)
+            alts.append((subs, e2))
+    # drop the helper's own local names again (the caller re-destructures); keep shapes
+    for _, e2 in alts:
+        for n in list(e2.vals):
+            if n not in saved and n != "__numbers__":
+                del e2.vals[n]
+    return alts
 
 
 def apply_guard(g, env, names):
@@ -392,23 +601,32 @@ def instances(arm, scrut_names=("left", "operator", "right")):
                     env.vals["right"] = rt
                     label = "alt%d:%s%s" % (alt_i, op, "".join(":%s=%s" % kv for kv in sorted(env.ops.items()) if kv[0] != "operator"))
                     try:
-                        subs = {}
-                        keep = True
+                        alts = [({}, env)]
                         if arm.get("guard"):
-                            subs, keep = apply_guard(arm["guard"], env, None)
-                        if not keep:
-                            continue
-                        if subs:
-                            for n, v in list(env.vals.items()):
-                                if n != "__numbers__":
-                                    env.vals[n] = sp.sympify(v).subs(subs)
-                        lhs = apply_op(op, env.vals["left"], env.vals["right"])
-                        cands = eval_expr_in(arm["body"], env)
-                        yield (label, lhs, cands)
+                            try:
+                                subs, keep = apply_guard(arm["guard"], env, None)
+                                if not keep:
+                                    continue
+                                env.substitute(subs)
+                                alts = [(subs, env)]
+                            except Undecided:
+                                alts = inline_helper(arm["guard"], env)  # one alternative per way the helper can succeed
                     except Vacuous as v:
                         yield (label, None, "vacuous: %s" % v)
+                        continue
                     except Undecided as u:
                         yield (label, None, "undecided: %s" % u)
+                        continue
+                    for ai, (subs, env_a) in enumerate(alts):
+                        lab = label if len(alts) == 1 else "%s|case%d" % (label, ai)
+                        try:
+                            lhs = apply_op(op, env_a.vals["left"], env_a.vals["right"])
+                            cands = eval_expr_in(arm["body"], env_a)
+                            yield (lab, lhs, cands)
+                        except Vacuous as v:
+                            yield (lab, None, "vacuous: %s" % v)
+                        except Undecided as u:
+                            yield (lab, None, "undecided: %s" % u)
 
 
 def equal(a, b):
